@@ -6,7 +6,7 @@ from oracle_util import *  # noqa
 from protocol import from_real
 
 ID = "C04"
-LEAN_MODULE = ["SCoda.Props.C04", "SCoda.Props.C04b", "SCoda.Props.C04c", "SCoda.Props.WrapTie", "SCoda.Props.C04d", "SCoda.Props.ViewTie"]
+LEAN_MODULE = ["SCoda.Props.C04", "SCoda.Props.C04b", "SCoda.Props.C04c", "SCoda.Props.WrapTie", "SCoda.Props.C04d", "SCoda.Props.ViewTie", "SCoda.Props.C04e"]
 LEVEL = "proof"
 CLAUSES = [
     ("after any history both views describe the same timed events and the same duration (generic two-view machine, instantiated with the modelled conversions)",
@@ -57,6 +57,8 @@ CLAUSES = [
     ("tripwire: every public name of Sequence found by introspection (regenerated list) appears in the hand-written classification table and "
      "vice versa — a new or removed public method breaks it; it says nothing about what the methods do",
      ["SCoda.C04.ops_covered", "SCoda.C04.ops_exist"]),
+    ("C04 FOR THE TRANSLATED SOURCE WITH NO FALLBACK ON THE MODEL (audit round 3 R7): genRunStrict executes every step by the translation of sequence.py and answers 'no translated counterpart' instead of falling back on the hand model; from a state in the invariant any legal history over the translated entries runs to the end, keeps the invariant and leaves both views readable and in agreement. The translated step exists EXACTLY for the hasGen entries, for every state, equals included, and equals the model's step there. 'Every alphabet entry has a translated counterpart' is FALSE: editAbsFirst / editRelFirst are a consumer abandoning a generator after the first message, and pairings (Sequence.get_message_pairings) is not in the wrapper translator's list, its effect being the heap-level AbsTie2.pairings_init, composed in pairings_gen_state; those three stay covered by C04c.history_inv plus the sampled correspondence",
+     ["SCoda.C04e.genExec2_isSome", "SCoda.C04e.genExec_isSome", "SCoda.C04e.hasGen_false_iff", "SCoda.C04e.genExec2_eq", "SCoda.C04e.genExec2_total_partial", "SCoda.C04e.genExec_total_statement_false", "SCoda.C04e.genExec2_total_statement_false", "SCoda.C04e.genRunStrict_eq", "SCoda.C04e.genRunStrict_none", "SCoda.C04e.genRunStrict_eq_none", "SCoda.C04e.genRun_uses_gen", "SCoda.C04e.history_inv_strict", "SCoda.C04e.history_readable_strict", "SCoda.C04e.views_agree_after_strict", "SCoda.C04e.history_readable_illegal_strict", "SCoda.C04e.pairings_gen_state"]),
 ]
 RULE = ("random histories (<=12 ops quick, <=40 thorough) over the full public alphabet (mutators, both overwrites, edits while "
         "iterating either view, copy, refresh, reads in any order) from each of the three freshness states, driven through real "
